@@ -557,8 +557,6 @@ func (b *Builder) ensureRemotePackage(ctx context.Context, pkgAddr sourceaddrs.R
 	}
 	dirName = base64.RawURLEncoding.EncodeToString(rawChecksum)
 
-	b.remotePackageDirs[pkgAddr] = dirName
-
 	// We might already have a directory with the same hash if we have two
 	// different package addresses that happen to return the same source code.
 	// For example, this could happen if one Git source leaves ref unspecified
@@ -573,6 +571,7 @@ func (b *Builder) ensureRemotePackage(ctx context.Context, pkgAddr sourceaddrs.R
 		if err != nil {
 			return "", fmt.Errorf("failed to clean temporary directory: %w", err)
 		}
+		b.remotePackageDirs[pkgAddr] = dirName
 		return dirName, nil
 	}
 
@@ -583,6 +582,9 @@ func (b *Builder) ensureRemotePackage(ctx context.Context, pkgAddr sourceaddrs.R
 		return "", fmt.Errorf("failed to place final package directory: %w", err)
 	}
 
+	// Only now is the package installed: recording it any earlier would make
+	// a later reference to it look like work that had already succeeded.
+	b.remotePackageDirs[pkgAddr] = dirName
 	return dirName, nil
 }
 
